@@ -93,17 +93,10 @@ Proof.
     cbn [In] in Hk. destruct Hk as [<-|[<-|[<-|[]]]]; vm_compute; reflexivity.
 Qed.
 
-Definition no_exp (l : list tok) : Prop := ~ In K_EXP (kinds l).
-
-Lemma no_exp_app a b : no_exp (a ++ b) -> no_exp a /\ no_exp b.
-Proof. unfold no_exp. rewrite kinds_app. intros H. split; intros H'; apply H; apply in_or_app; [left|right]; exact H'. Qed.
-
-Lemma value_summ v : wf_value v -> no_exp (print_value v) -> seg_in vals vlast (summary (kinds (print_value v))) = true.
+Lemma value_summ v : wf_value v -> seg_in vals vlast (summary (kinds (print_value v))) = true.
 Proof.
-  intros Hw Hn. destruct v as [t| |t|t|t|neg i e|l|l|l]; try (vm_compute; reflexivity).
-  - destruct e as [x|].
-    + exfalso. apply Hn. destruct neg; cbn; tauto.
-    + destruct neg; vm_compute; reflexivity.
+  intros Hw. destruct v as [t| |t|t|t|neg i e|l|l|l]; try (vm_compute; reflexivity).
+  - destruct e as [x|]; destruct neg; vm_compute; reflexivity.
   - cbn [print_value kinds map fst tLB summary]. change (map fst (print_sublist K_INT l)) with (kinds (print_sublist K_INT l)).
     rewrite (sublist_summ K_INT l Hw) by (cbn; tauto). vm_compute. reflexivity.
   - cbn [print_value kinds map fst tLB summary]. change (map fst (print_sublist K_DOUBLE l)) with (kinds (print_sublist K_DOUBLE l)).
@@ -114,14 +107,13 @@ Qed.
 
 Definition leaf_last := K_PR :: vlast.
 
-Lemma leaf_summ q : wf_leaf q -> no_exp (print_leaf q) -> seg_in [K_ATTRNAME] leaf_last (summary (kinds (print_leaf q))) = true.
+Lemma leaf_summ q : wf_leaf q -> seg_in [K_ATTRNAME] leaf_last (summary (kinds (print_leaf q))) = true.
 Proof.
-  intros Hw Hn. destruct q as [? ?|? ? ?|p|p op v]; [destruct Hw|destruct Hw| |].
+  intros Hw. destruct q as [? ?|? ? ?|p|p op v]; [destruct Hw|destruct Hw| |].
   - cbn [print_leaf wf_leaf] in *. rewrite kinds_app, summary_app, (path_summ p Hw). vm_compute. reflexivity.
   - cbn [print_leaf wf_leaf] in *. destruct Hw as [Hp Hv].
-    apply no_exp_app in Hn. destruct Hn as [_ Hn]. apply no_exp_app in Hn. destruct Hn as [_ Hn].
     rewrite kinds_app, summary_app, (path_summ p Hp), kinds_app, summary_app.
-    destruct (seg_in_cases _ _ _ (value_summ v Hv Hn)) as (f & l & -> & Hf & Hl).
+    destruct (seg_in_cases _ _ _ (value_summ v Hv)) as (f & l & -> & Hf & Hl).
     cbn [vals vlast In] in Hf, Hl.
     destruct op; repeat (destruct Hf as [<-|Hf]); try contradiction Hf;
       repeat (destruct Hl as [<-|Hl]); try contradiction Hl; vm_compute; reflexivity.
@@ -138,40 +130,34 @@ Qed.
 
 Ltac enum H := repeat (destruct H as [<-|H]); try contradiction H.
 
-Lemma leaf_prim_summ q : wf_leaf q -> no_exp (print_leaf q) -> seg_in pfirst plast (summary (kinds (print_leaf q))) = true.
+Lemma leaf_prim_summ q : wf_leaf q -> seg_in pfirst plast (summary (kinds (print_leaf q))) = true.
 Proof.
-  intros Hw Hn. destruct (seg_in_cases _ _ _ (leaf_summ q Hw Hn)) as (f & l & -> & Hf & Hl).
+  intros Hw. destruct (seg_in_cases _ _ _ (leaf_summ q Hw)) as (f & l & -> & Hf & Hl).
   cbn [leaf_last vlast In] in Hf, Hl. enum Hf; enum Hl; vm_compute; reflexivity.
 Qed.
 
-Lemma chain_summ : forall c, wf_chain c -> no_exp (print_chain c) -> seg_in pfirst plast (summary (kinds (print_chain c))) = true
-with prim_summ : forall p, wf_prim p -> no_exp (print_prim p) -> seg_in pfirst plast (summary (kinds (print_prim p))) = true.
+Lemma chain_summ : forall c, wf_chain c -> seg_in pfirst plast (summary (kinds (print_chain c))) = true
+with prim_summ : forall p, wf_prim p -> seg_in pfirst plast (summary (kinds (print_prim p))) = true.
 Proof.
-  - intros [f l] Hw Hn. apply wf_chain_eq in Hw. destruct Hw as [Hf Hl]. rewrite print_chain_eq in *.
-    apply no_exp_app in Hn. destruct Hn as [Hnf Hnl].
+  - intros [f l] Hw. apply wf_chain_eq in Hw. destruct Hw as [Hf Hl]. rewrite print_chain_eq in *.
     assert (Hr : rest_ok (summary (kinds (print_rest l))) = true).
-    { clear -Hl Hnl prim_summ. induction l as [|[o p] l IH]; [reflexivity|]. destruct Hl as [Hp Hl'].
+    { clear -Hl prim_summ. induction l as [|[o p] l IH]; [reflexivity|]. destruct Hl as [Hp Hl'].
       cbn [print_rest] in *.
       change (tSP :: (K_LOGICAL_OPERATOR, if o then t_or else t_and) :: tSP :: print_prim p ++ print_rest l)
         with ([tSP; (K_LOGICAL_OPERATOR, if o then t_or else t_and); tSP] ++ print_prim p ++ print_rest l) in *.
-      apply no_exp_app in Hnl. destruct Hnl as [_ Hnl]. apply no_exp_app in Hnl. destruct Hnl as [Hnp Hnl].
       rewrite kinds_app, summary_app, kinds_app, summary_app.
-      destruct (seg_in_cases _ _ _ (prim_summ p Hp Hnp)) as (f & la & -> & Hf & Hla).
-      destruct (rest_ok_cases _ (IH Hl' Hnl)) as [->|(l2 & -> & Hl2)];
+      destruct (seg_in_cases _ _ _ (prim_summ p Hp)) as (f & la & -> & Hf & Hla).
+      destruct (rest_ok_cases _ (IH Hl')) as [->|(l2 & -> & Hl2)];
         cbn [pfirst plast vlast In] in *; enum Hf; enum Hla; try (enum Hl2); vm_compute; reflexivity. }
     rewrite kinds_app, summary_app.
-    destruct (seg_in_cases _ _ _ (prim_summ f Hf Hnf)) as (f0 & la & -> & Hf0 & Hla).
+    destruct (seg_in_cases _ _ _ (prim_summ f Hf)) as (f0 & la & -> & Hf0 & Hla).
     destruct (rest_ok_cases _ Hr) as [->|(l2 & -> & Hl2)];
       cbn [pfirst plast vlast In] in *; enum Hf0; enum Hla; try (enum Hl2); vm_compute; reflexivity.
-  - intros [q|neg sp0 sp1 sp2 inner] Hw Hn.
+  - intros [q|neg sp0 sp1 sp2 inner] Hw.
     + apply leaf_prim_summ; assumption.
     + cbn [print_prim wf_prim] in *.
-      assert (Hni : no_exp (print_chain inner)).
-      { apply no_exp_app in Hn. destruct Hn as [_ Hn]. apply no_exp_app in Hn. destruct Hn as [_ Hn].
-        apply no_exp_app in Hn. destruct Hn as [_ Hn]. apply no_exp_app in Hn. destruct Hn as [_ Hn].
-        apply no_exp_app in Hn. destruct Hn as [Hn _]. exact Hn. }
       rewrite !kinds_app, !summary_app.
-      destruct (seg_in_cases _ _ _ (chain_summ inner Hw Hni)) as (f & la & -> & Hf & Hla).
+      destruct (seg_in_cases _ _ _ (chain_summ inner Hw)) as (f & la & -> & Hf & Hla).
       cbn [pfirst plast vlast In] in *. 
       destruct neg, sp0, sp1, sp2; enum Hf; enum Hla; vm_compute; reflexivity.
 Qed.
@@ -184,49 +170,49 @@ Proof. unfold kinds. rewrite map_map. apply map_ext. exact fst_norm. Qed.
 
 (* THE theorem: any spelling of a sentence's tokens, concatenated, lexes to those tokens ... *)
 Theorem spelled_sentence_lexes c ts :
-  wf_chain c -> map norm ts = print_chain c -> ~ In K_EXP (kinds ts) -> Forall tok_ok ts ->
+  wf_chain c -> map norm ts = print_chain c -> Forall tok_ok ts ->
   lex g4_lexer_rules (cat_texts ts) = Some ts.
 Proof.
-  intros Hw Hn Hx Hall. apply context_lex; [exact Hall|].
+  intros Hw Hn Hall. apply context_lex; [exact Hall|].
   change (map fst ts) with (kinds ts). rewrite <- kinds_norm, Hn.
-  assert (Hx' : no_exp (print_chain c)) by (unfold no_exp; rewrite <- Hn, kinds_norm; exact Hx).
-  destruct (seg_in_cases _ _ _ (chain_summ c Hw Hx')) as (f & l & E & _). exact (summary_chain _ _ _ E).
+  destruct (seg_in_cases _ _ _ (chain_summ c Hw)) as (f & l & E & _). exact (summary_chain _ _ _ E).
 Qed.
 
 (* ... and therefore the text parses to the tree of the sentence, whatever the spelling *)
 Theorem spelled_sentence_parses c ts :
-  wf_chain c -> map norm ts = print_chain c -> ~ In K_EXP (kinds ts) -> Forall tok_ok ts ->
+  wf_chain c -> map norm ts = print_chain c -> Forall tok_ok ts ->
   parse_text (cat_texts ts) = Some (erase_chain c).
 Proof.
-  intros Hw Hn Hx Hall. unfold parse_text. rewrite (spelled_sentence_lexes c ts Hw Hn Hx Hall).
+  intros Hw Hn Hall. unfold parse_text. rewrite (spelled_sentence_lexes c ts Hw Hn Hall).
   unfold parse_tokens. rewrite Hn. apply parse_core_print. exact Hw.
 Qed.
 
 (* two spellings of one sentence give one tree *)
 Corollary respelling_same_tree c ts1 ts2 :
   wf_chain c -> map norm ts1 = print_chain c -> map norm ts2 = print_chain c ->
-  ~ In K_EXP (kinds ts1) -> Forall tok_ok ts1 -> Forall tok_ok ts2 ->
+  Forall tok_ok ts1 -> Forall tok_ok ts2 ->
   parse_text (cat_texts ts1) = parse_text (cat_texts ts2).
 Proof.
-  intros Hw H1 H2 Hx A1 A2. rewrite (spelled_sentence_parses c ts1 Hw H1 Hx A1).
-  assert (Hx2 : ~ In K_EXP (kinds ts2)) by (rewrite <- kinds_norm, H2, <- H1, kinds_norm; exact Hx).
-  rewrite (spelled_sentence_parses c ts2 Hw H2 Hx2 A2). reflexivity.
+  intros Hw H1 H2 A1 A2. rewrite (spelled_sentence_parses c ts1 Hw H1 A1), (spelled_sentence_parses c ts2 Hw H2 A2). reflexivity.
 Qed.
 
-(* the hypotheses are satisfiable: NOT( \n x == "a" \n\n and y IN [1,  2]) *)
+(* the hypotheses are satisfiable: NOT( \n x == "a" \n\n and y IN [1,  2] or \n z > -1e+5) *)
 Definition ex_ts : list tok :=
   [(K_NOT,[78;79;84]); (K_LP,[40]); (K_SP,[32;10]); (K_ATTRNAME,[120]); (K_SP,[32]); (K_EQ,[61;61]); (K_SP,[32]); (K_STRING,[34;97;34]);
    (K_SP,[32;10;10]); (K_LOGICAL_OPERATOR,[97;110;100]); (K_SP,[32]); (K_ATTRNAME,[121]); (K_SP,[32]); (K_IN,[73;78]); (K_SP,[32]);
-   (K_LB,[91]); (K_INT,[49]); (K_COMMA,[44;32;32]); (K_INT,[50]); (K_RB,[93]); (K_RP,[41])].
+   (K_LB,[91]); (K_INT,[49]); (K_COMMA,[44;32;32]); (K_INT,[50]); (K_RB,[93]);
+   (K_SP,[32]); (K_LOGICAL_OPERATOR,[111;114]); (K_SP,[32;10]); (K_ATTRNAME,[122]); (K_SP,[32]); (K_GT,[62]); (K_SP,[32]);
+   (K_MINUS,[45]); (K_INT,[49]); (K_EXP,[101;43;53]); (K_RP,[41])].
 Definition ex_c : lchain :=
   LChain (LParen true false true false
-    (LChain (LLeaf (QCompare [[120]] EQ (VString [34;97;34]))) [(false, LLeaf (QCompare [[121]] IN (VListInts [[49];[50]])))])) [].
+    (LChain (LLeaf (QCompare [[120]] EQ (VString [34;97;34]))) [(false, LLeaf (QCompare [[121]] IN (VListInts [[49];[50]])));
+       (true, LLeaf (QCompare [[122]] GT (VLong true [49] (Some [101;43;53]))))])) [].
 
-Example ex_hyps : wf_chain ex_c /\ map norm ex_ts = print_chain ex_c /\ ~ In K_EXP (kinds ex_ts) /\ Forall tok_ok ex_ts.
+Example ex_hyps : wf_chain ex_c /\ map norm ex_ts = print_chain ex_c /\ Forall tok_ok ex_ts.
 Proof.
-  split; [cbn; repeat split; discriminate|]. split; [reflexivity|]. split; [cbn; intuition discriminate|].
+  split; [cbn; repeat split; discriminate|]. split; [reflexivity|].
   repeat constructor; try (vm_compute; reflexivity); cbn [fst snd]; try discriminate; intros _; vm_compute; reflexivity.
 Qed.
 
 Example ex_parses : parse_text (cat_texts ex_ts) = Some (erase_chain ex_c).
-Proof. destruct ex_hyps as (H1 & H2 & H3 & H4). exact (spelled_sentence_parses ex_c ex_ts H1 H2 H3 H4). Qed.
+Proof. destruct ex_hyps as (H1 & H2 & H3). exact (spelled_sentence_parses ex_c ex_ts H1 H2 H3). Qed.
